@@ -215,7 +215,24 @@ def sections(ctx) -> None:
     ctx.check('reference or CONFIG.get(cls.INDEX, {}).get(cls.SELECTOR)' in core.src(res.node), 'C20.section', res, 'an explicit reference takes precedence over the configured default', res.node, key='resolve:default')
 
 
+def probes(ctx) -> None:
+    prog = ctx.prog
+    n = shared.r_probe(ctx, prog.functions([m for m in prog.modules if m.startswith(('forml.provider', 'forml.setup', 'forml.project'))]))
+    ctx.floor('R-PROBE', n, 2)
+    load = prog.func('forml.provider:Bank.Path.load')
+    h = next((x for x in core.walk_local(load.node) if isinstance(x, ast.ExceptHandler)), None)
+    ok = h is not None and core.src(h.type) == 'ModuleNotFoundError'
+    ctx.check(ok, 'R-PROBE', load, 'only ModuleNotFoundError is treated as "not found"', load.node, key='Path.load:handler')
+    if h is not None:
+        rs = [r for r in ast.walk(h) if isinstance(r, ast.Raise)]
+        re_raise = [r for r in rs if core.src(r) == f'raise {h.name}']
+        ctx.check(len(re_raise) == 1 and cfg.cguards(re_raise[0], h) == [(f'self.value.startswith({h.name}.name)', False)], 'R-PROBE', load, 'an import error of anything else than the probed path (or a parent of it) is re-raised', h, key='Path.load:reraise')
+        miss = [r for r in rs if 'MissingError' in core.src(r)]
+        ctx.check(len(miss) == 1 and ('self.explicit', True) in cfg.cguards(miss[0], h, siblings=True), 'R-PROBE', load, 'a missing explicit path is the missing-provider error', h, key='Path.load:explicit')
+
+
 def run(ctx) -> None:
+    probes(ctx)
     merge_cases(ctx)
     provider_bank(ctx)
     sections(ctx)
